@@ -178,8 +178,10 @@ def gen_case(rng, tier):
         if rng.random() < 0.25:
             # the object the program held BEFORE the last deepcopy / pickle / reload is still alive
             # and is used and modified in between (two live related machines, interleaved use)
+            # ("prior": the related machine is the UBM a MAP machine was built on)
             ops[-1]["sib"] = {"attr": rng.choice(["variances", "weights", "floor", "means", "use"]),
-                              "k": rng.choice([0.3, 0.5, 2.0, 3.0])}
+                              "k": rng.choice([0.3, 0.5, 2.0, 3.0]),
+                              "target": rng.choice(["sibling", "prior"])}
     return {
         "kind": rng.choice(["ml", "ml", "map"]),
         "c": c, "d": d,
@@ -580,8 +582,12 @@ def run_case(case, replay=None):
                         # doing, so it is not kept)
                         siblings.append((before_op, probe))
                         del siblings[:-2]
-                    if o.get("sib") and siblings:
-                        s_, p_ = siblings[-1]
+                    related = list(siblings)
+                    if o.get("sib") and o["sib"].get("target") == "prior" and \
+                            getattr(m, "ubm", None) is not None:
+                        related = [(m.ubm, probe)]
+                    if o.get("sib") and related:
+                        s_, p_ = related[-1]
                         a_, k_ = o["sib"]["attr"], o["sib"]["k"]
                         if a_ == "variances":
                             s_.variances = np.array(s_.variances, float) * k_
